@@ -7,10 +7,13 @@
      * a query row is answered by the policy of the cluster k-means assigns it to;
      * TreeBandit._fit_arm files each reward of the arm, in row order, under the leaf its context falls into,
        appended after what the leaf already held, and leaves every other arm untouched.
-    ..._partial: the per-leaf statistic itself is C01 applied to the leaf's reward list (leaf policies are fresh
-    context-free policies fitted on it); findings D6 / D7 concern the leaf policies' binarizer and generator. *)
+     * the value TreeBandit reports for an arm is the C01 statistic of exactly the rewards filed under the query's leaf: for
+       UCB1 the leaf policy (a freshly constructed policy over that single arm fitted on the leaf's list) holds sum, count,
+       mean of the list and reports mean + alpha*sqrt(2 ln n / n) with n the size of the leaf, without touching the generator.
+    ..._partial: ThompsonSampling / EpsilonGreedy leaves draw (findings D6 / D7 concern their binarizer and generator);
+    finding D19: Clusters.remove_arm does not purge the stored history (a re-added arm reports 0 until the next training call). *)
 From Coq Require Import List ZArith Bool Arith QArith Qcanon Permutation.
-From MW Require Import Num Assoc AssocFacts Rng Par CF CFInv CFClean CFForget CFSpec Matrix Lin Warm WarmInv Nbr NbrFacts NbrIndep LshFacts Clu Tree CellFacts Mab FacadeCF FacadeArms MoreFacts NumLaws CFAlg Sim Extra QcInst.
+From MW Require Import Num Assoc AssocFacts Rng Par CF CFInv CFClean CFForget CFSpec Matrix Lin Warm WarmInv Nbr NbrFacts NbrIndep LshFacts Clu Tree CellFacts Mab FacadeCF FacadeArms MoreFacts NumLaws CFAlg Sim Extra QcInst OrderFacts ExpIrrel LinInv FacadeLin LpInv NbrInv CluTreeInv FacadeAll ToyFacts C09All C10All LinForget LinSim MatrixFacts GaussJordan LinSpec NbrIndepGen CluIndep C17Lin WarmIdem C14More LshScale TreeLeaf Rename.
 Import ListNotations.
 
 Theorem C12_cluster_policy_trained_on_rows_with_its_label :
@@ -69,5 +72,24 @@ Theorem C12_tree_other_arms_untouched :
   b <> a -> aget aeqb (tree_fit_arm aeqb leaf lv a ds rs cx) b = aget aeqb lv b.
 Proof. exact @tree_fit_arm_other. Qed.
 Print Assumptions C12_tree_other_arms_untouched.
+
+Theorem C12_tree_leaf_policy_holds_the_statistics_of_the_leaf :
+  forall (R A : Type) (N : Num R) (aeqb : A -> A -> bool),
+  (forall x y : A, aeqb x y = true <-> x = y) ->
+  forall (hp : R) (bz : option (A -> R -> R)) (a : A) (rewards : list R),
+  let l1 := cf_fit N aeqb (cf_init N KUcb hp bz [a]) (repeat a (length rewards)) rewards in
+  c_total l1 = Z.of_nat (length rewards) /\ c_hp l1 = hp /\ ucb_arm_ok N aeqb l1 [rewards] a.
+Proof. exact @leaf_policy_ucb. Qed.
+Print Assumptions C12_tree_leaf_policy_holds_the_statistics_of_the_leaf.
+
+Theorem C12_tree_reports_ucb_of_the_leaf_rewards :
+  forall (R A G : Type) (N : Num R) (aeqb : A -> A -> bool) (RG : RngOps R G),
+  (forall x y : A, aeqb x y = true <-> x = y) ->
+  forall (s : (@tree R A)) (g : G) (a : A) (rewards : list R),
+  c_kind (t_lp s) = KUcb ->
+  leaf_expectation N aeqb RG s g a rewards =
+  (spec_ucb N (c_hp (t_lp s)) (Z.of_nat (length rewards)) [rewards], g).
+Proof. exact @leaf_expectation_ucb. Qed.
+Print Assumptions C12_tree_reports_ucb_of_the_leaf_rewards.
 
 
